@@ -201,6 +201,17 @@ def _unit(args):
 
 def run_all(modname, tier, jobs):
     tasks = _tasks(modname)
+    # tasks that manage their own process pool (the composed-machine engine) run first, in this process
+    own = {}
+    for i, t in enumerate(tasks):
+        if getattr(t, "own_pool", False):
+            t0 = time.time()
+            try:
+                r = t.run_own(tier, jobs)
+            except Exception:
+                r = {"obligations": [ob(t.name + ".crash", "crash", detail=traceback.format_exc())], "info": {}}
+            r["task"], r["kind"], r["counted"], r["wall"] = t.name, t.kind, t.counted, round(time.time() - t0, 2)
+            own[i] = r
     serial = jobs == 1 or bool(os.environ.get("VERIF_SERIAL"))
     pool = None if serial else mp.get_context("fork").Pool(jobs)
     mapper = (lambda f, xs: [f(x) for x in xs]) if serial else (lambda f, xs: pool.map(f, xs, chunksize=1))
@@ -208,6 +219,8 @@ def run_all(modname, tier, jobs):
         plans = mapper(_plan, [(modname, i, tier) for i in range(len(tasks))])
         units = []
         for i, (st, pl) in enumerate(plans):
+            if i in own:
+                continue
             if st == "ok":
                 units += [(modname, i, u, tier) for u in pl]
         parts = mapper(_unit, units)
@@ -217,6 +230,9 @@ def run_all(modname, tier, jobs):
             pool.join()
     results = []
     for i, t in enumerate(tasks):
+        if i in own:
+            results.append(own[i])
+            continue
         st, pl = plans[i]
         if st != "ok":
             results.append({"task": t.name, "kind": "error", "counted": False, "wall": 0, "info": {},
@@ -247,6 +263,10 @@ def native_replay(prop, obligation, info, o, outdir):
     os.makedirs(outdir, exist_ok=True)
     safe = "".join(ch if ch.isalnum() or ch in "._-" else "_" for ch in obligation)[:150]
     path = os.path.join(outdir, f"{prop}__{safe}.json")
+    if o.get("replay") is None and o["meta"].get("replay"):
+        o = dict(o)
+        o["replay"] = dict(o["meta"]["replay"])
+        o["replay"]["cti"] = o.get("cex")
     rep = {"property": prop, "obligation": obligation, "target": info.get("target"), "kind": o["meta"].get("kind"),
            "clause": o["meta"].get("src"), "exc": o["meta"].get("exc"), "inputs": o.get("cex"),
            "replay_spec": info.get("replay"), "lemma": info.get("lemma"), "solver": o.get("backend"), "solver_output": o.get("detail"),
